@@ -87,6 +87,43 @@ mod alloc_seam {
     static GLOBAL: SimAlloc = SimAlloc;
 }
 
+#[cfg(sim_bb)]
+mod bb_seam {
+    //! SanitizerCoverage callbacks. In the `sim_bb` build every crate (exmex, its dependencies, the
+    //! generic std code instantiated in them, this harness) is compiled with
+    //! `-Cpasses=sancov-module` + trace-pc-guard + trace-loads + trace-stores, so LLVM inserts a call
+    //! to one of these functions at every basic-block edge and before every load and store. LLVM
+    //! does not instrument functions whose names start with `__sanitizer_`, and everything they do
+    //! on the fast path is inlined thread-local access.
+    use crate::sched::{bb_point, SEAM_BB, SEAM_MEM};
+    #[inline(always)]
+    fn ret_addr() -> u64 {
+        let ra: u64;
+        unsafe { std::arch::asm!("mov {0}, [rbp+8]", out(reg) ra, options(nostack, readonly)) };
+        ra
+    }
+    #[no_mangle]
+    #[inline(never)]
+    pub extern "C" fn __sanitizer_cov_trace_pc_guard(_g: *mut u32) {
+        bb_point(SEAM_BB, ret_addr());
+    }
+    #[no_mangle]
+    pub extern "C" fn __sanitizer_cov_trace_pc_guard_init(_a: *mut u32, _b: *mut u32) {}
+    macro_rules! mem_cb {
+        ($($name:ident),*) => { $(
+            #[no_mangle]
+            #[inline(never)]
+            pub extern "C" fn $name(_p: *const u8) {
+                bb_point(SEAM_MEM, ret_addr() | (1 << 63));
+            }
+        )* };
+    }
+    mem_cb!(
+        __sanitizer_cov_load1, __sanitizer_cov_load2, __sanitizer_cov_load4, __sanitizer_cov_load8, __sanitizer_cov_load16,
+        __sanitizer_cov_store1, __sanitizer_cov_store2, __sanitizer_cov_store4, __sanitizer_cov_store8, __sanitizer_cov_store16
+    );
+}
+
 pub struct RunPlan {
     pub alloc_every: u32,
     pub run_seed: u64,
@@ -430,6 +467,8 @@ fn cmd_native(args: &[String]) -> i32 {
                                     fault_run: plan.fault_run,
                                 alloc_every: plan.alloc_every,
                                 fresh_process: false,
+                                bb_gap: 0,
+                                age: 0,
                                 fresh_warm_full: false,
                                     workload: plan.workload.clone(),
                                     schedule: out.report.schedule.clone(),
@@ -455,6 +494,8 @@ fn cmd_native(args: &[String]) -> i32 {
                                 fault_run: plan.fault_run,
                                 alloc_every: plan.alloc_every,
                                 fresh_process: false,
+                                bb_gap: 0,
+                                age: 0,
                                 fresh_warm_full: false,
                                 workload: plan.workload.clone(),
                                 schedule: out.report.schedule.clone(),
@@ -544,8 +585,13 @@ fn cmd_replay(args: &[String]) -> i32 {
     sched::install_repo_hook();
     let text = std::fs::read_to_string(path).expect("read replay file");
     let rf: ReplayFile = serde_json::from_str(&text).expect("parse replay file");
-    let cfg = ExecCfg::with_alloc(rf.alloc_every);
+    let cfg = ExecCfg::with_seams(rf.alloc_every, rf.bb_gap, derive(rf.run_seed, 6));
+    if rf.bb_gap > 0 && !cfg!(sim_bb) {
+        eprintln!("this replay file needs the sim_bb build of the harness (basic-block seams)");
+        return 2;
+    }
     let (fresh, full) = (rf.fresh_process, rf.fresh_warm_full);
+    let (age, age_seed) = (rf.age, rf.batch_seed);
     let _ = std::thread::Builder::new()
         .stack_size(run::STACK)
         .spawn(move || {
@@ -554,6 +600,7 @@ fn cmd_replay(args: &[String]) -> i32 {
                 if full {
                     warm_up(1);
                 }
+                age_process(age_seed, age);
             } else {
                 warm_up(1)
             }
@@ -668,6 +715,17 @@ struct ChildJob {
     workload: Workload,
     source: Source,
     alloc_every: u32,
+    #[serde(default)]
+    bb_gap: u32,
+    #[serde(default)]
+    bb_seed: u64,
+    /// "aged" process: this many reference workloads (single-threaded, deterministic) are executed
+    /// before the simulated run, so that counters, caches and tables of the code under test are not
+    /// in their initial state
+    #[serde(default)]
+    age: u32,
+    #[serde(default)]
+    age_seed: u64,
     /// false: only exmex' own regexes are initialised before the run (first-use runs);
     /// true: one parse + eval of every kind happened before (steady state)
     warm_full: bool,
@@ -687,7 +745,8 @@ fn cmd_firstuse_exec(args: &[String]) -> i32 {
             if job.warm_full {
                 warm_up(1);
             }
-            let cfg = ExecCfg::with_alloc(job.alloc_every);
+            age_process(job.age_seed, job.age);
+            let cfg = ExecCfg::with_seams(job.alloc_every, job.bb_gap, job.bb_seed);
             ExecResult::from(&execute(&job.workload, job.source, &cfg))
         })
         .unwrap();
@@ -700,11 +759,20 @@ fn cmd_firstuse_exec(args: &[String]) -> i32 {
     0
 }
 
-fn child_exec(dir: &str, tag: u64, w: &Workload, source: Source, alloc_every: u32, warm_full: bool) -> Result<ExecResult, String> {
+/// Gives the process a deterministic single-threaded history (see ChildJob::age).
+fn age_process(seed: u64, age: u32) {
+    for j in 0..age as u64 {
+        let plan = plan_run(seed ^ 0xA6ED, j);
+        let _ = run::reference(&plan.workload);
+    }
+}
+
+#[allow(clippy::too_many_arguments)]
+fn child_exec(dir: &str, tag: u64, w: &Workload, source: Source, alloc_every: u32, warm_full: bool, bb_gap: u32, bb_seed: u64, age: u32, age_seed: u64) -> Result<ExecResult, String> {
     let inp = format!("{dir}/fu_{tag}.in.json");
     let outp = format!("{dir}/fu_{tag}.out.json");
     let _ = std::fs::remove_file(&outp);
-    let job = ChildJob { workload: w.clone(), source, alloc_every, warm_full };
+    let job = ChildJob { workload: w.clone(), source, alloc_every, bb_gap, bb_seed, warm_full, age, age_seed };
     std::fs::write(&inp, serde_json::to_string(&job).unwrap()).map_err(|e| e.to_string())?;
     let exe = std::env::current_exe().map_err(|e| e.to_string())?;
     let st = std::process::Command::new(exe)
@@ -724,6 +792,8 @@ fn child_exec(dir: &str, tag: u64, w: &Workload, source: Source, alloc_every: u3
 }
 
 pub struct FreshPlan {
+    pub age: u32,
+    pub bb_gap: u32,
     pub workload: Workload,
     pub policy: PolicyKind,
     pub sched_seed: u64,
@@ -747,7 +817,11 @@ pub fn plan_fresh(batch_seed: u64, index: u64) -> FreshPlan {
     };
     let policy = ALL_POLICIES[(derive(run_seed, 2) % ALL_POLICIES.len() as u64) as usize];
     let alloc_every = if first_use { 1 } else { [1, 1, 3, 2][(derive(run_seed, 4) % 4) as usize] };
-    FreshPlan { workload, policy, sched_seed: derive(run_seed, 3), run_seed, alloc_every, warm_full: !first_use, fault_run }
+    // basic-block / load-store points only exist in the sim_bb build; there 3 of 4 fresh runs use them
+    let bb_gap = if cfg!(sim_bb) { [0u32, 40, 300, 2500][(derive(run_seed, 5) % 4) as usize] } else { 0 };
+    // one steady-state run in four happens in an "aged" process
+    let age = if !first_use && index % 8 == 3 { 40 } else { 0 };
+    FreshPlan { age, bb_gap, workload, policy, sched_seed: derive(run_seed, 3), run_seed, alloc_every, warm_full: !first_use, fault_run }
 }
 
 /// parent: a batch of first-use runs, each in its own child process
@@ -766,6 +840,8 @@ fn cmd_firstuse(args: &[String]) -> i32 {
     let tag = std::process::id() as u64;
     let mut runs = 0u64;
     let mut runs_steady = 0u64;
+    let mut runs_bb = 0u64;
+    let mut sw_bb = 0u64;
     let mut faults_planned = 0u64;
     let mut faults_fired = 0u64;
     let mut steps = 0u64;
@@ -784,11 +860,16 @@ fn cmd_firstuse(args: &[String]) -> i32 {
         let fp = plan_fresh(seed, idx);
         let (w, policy, sched_seed, run_seed) = (fp.workload.clone(), fp.policy, fp.sched_seed, fp.run_seed);
         let (alloc_every, warm_full) = (fp.alloc_every, fp.warm_full);
+        let (bb_gap, bb_seed) = (fp.bb_gap, derive(run_seed, 6));
+        let age = fp.age;
+        if bb_gap > 0 {
+            runs_bb += 1;
+        }
         if warm_full {
             runs_steady += 1;
         }
         faults_planned += w.faults.len() as u64;
-        let res = match child_exec(&scratch, tag, &w, Source::Policy { kind: policy, seed: sched_seed }, alloc_every, warm_full) {
+        let res = match child_exec(&scratch, tag, &w, Source::Policy { kind: policy, seed: sched_seed }, alloc_every, warm_full, bb_gap, bb_seed, age, seed) {
             Ok(r) => r,
             Err(e) => {
                 // a child that dies of a signal is a crash of the code under test or of the harness;
@@ -802,6 +883,8 @@ fn cmd_firstuse(args: &[String]) -> i32 {
         decisions += res.report.decisions;
         sw_inner += res.report.switches_inner;
         sw_alloc += res.report.switch_at.get(sched::SEAM_ALLOC as usize).copied().unwrap_or(0);
+        sw_bb += res.report.switch_at.get(sched::SEAM_BB as usize).copied().unwrap_or(0)
+            + res.report.switch_at.get(sched::SEAM_MEM as usize).copied().unwrap_or(0);
         ext_block += res.report.ext_block_events;
         faults_fired += res.report.faults_fired.len() as u64;
         if res.report.switches_inner >= 1 {
@@ -829,6 +912,8 @@ fn cmd_firstuse(args: &[String]) -> i32 {
                 policy,
                 fault_run: fp.fault_run,
                 alloc_every,
+                bb_gap,
+                age,
                 fresh_process: true,
                 fresh_warm_full: warm_full,
                 workload: w.clone(),
@@ -848,7 +933,7 @@ fn cmd_firstuse(args: &[String]) -> i32 {
                     "original_size": orig, "final_size": orig}));
                 break;
             }
-            let mut exec = |w: &Workload, s: Source| match child_exec(&scratch, tag, w, s, alloc_every, warm_full) {
+            let mut exec = |w: &Workload, s: Source| match child_exec(&scratch, tag, w, s, alloc_every, warm_full, bb_gap, bb_seed, age, seed) {
                 Ok(r) => r,
                 Err(_) => ExecResult { violations: vec![], schedule: vec![], report: Default::default(), n_victims: 0, ref_digest: 0 },
             };
@@ -863,6 +948,7 @@ fn cmd_firstuse(args: &[String]) -> i32 {
     }
     let v = serde_json::json!({
         "firstuse_runs": runs, "fresh_steady_state_runs": runs_steady, "fresh_first_use_runs": runs - runs_steady,
+        "runs_with_basic_block_and_load_store_seams": runs_bb, "switches_at_basic_block_or_load_store_seam": sw_bb,
         "faults_planned": faults_planned, "faults_fired": faults_fired, "steps_total": steps, "decisions_total": decisions, "switches_inner": sw_inner,
         "switches_at_allocator_seam": sw_alloc, "ext_block_events": ext_block,
         "distinct_nontrivial_trace_digests": digests.len(), "samples": samples, "violation": violation,
@@ -899,6 +985,7 @@ fn cmd_show(args: &[String]) -> i32 {
 }
 
 extern "C" {
+    fn personality(persona: u64) -> i32;
     fn sched_getcpu() -> i32;
     fn sched_setaffinity(pid: i32, cpusetsize: usize, mask: *const u64) -> i32;
 }
@@ -922,8 +1009,38 @@ fn pin_to_one_cpu() {
     }
 }
 
+/// Address-space layout randomisation leaks into instruction paths (alignment loops in memchr,
+/// allocator behaviour, anything that looks at an address) and with it into the number of
+/// instrumentation callbacks between two program points, i.e. into where basic-block scheduling
+/// points fall. Simulation processes therefore run with ADDR_NO_RANDOMIZE: set the persona and
+/// re-execute ourselves once; children inherit it.
+fn without_aslr() {
+    const ADDR_NO_RANDOMIZE: u64 = 0x0040000;
+    unsafe {
+        let cur = personality(0xffff_ffff);
+        if cur < 0 || (cur as u64 & ADDR_NO_RANDOMIZE) != 0 {
+            return;
+        }
+        if personality(cur as u64 | ADDR_NO_RANDOMIZE) < 0 {
+            return;
+        }
+    }
+    use std::os::unix::process::CommandExt;
+    if let Ok(exe) = std::env::current_exe() {
+        // only returns on failure; then we simply go on with ASLR
+        let _ = std::process::Command::new(exe).args(std::env::args_os().skip(1)).exec();
+    }
+}
+
 fn main() {
     let args: Vec<String> = std::env::args().skip(1).collect();
+    if matches!(
+        args.first().map(|s| s.as_str()),
+        Some("native" | "replay" | "refdigest" | "firstuse" | "firstuse-exec" | "fu-one")
+    ) {
+        without_aslr();
+    }
+    sched::bb_init();
     if matches!(
         args.first().map(|s| s.as_str()),
         Some("native" | "replay" | "refdigest" | "firstuse" | "firstuse-exec" | "fu-one")
@@ -988,9 +1105,25 @@ pub fn cmd_fu_one(args: &[String]) -> i32 {
         if fp.warm_full {
             warm_up(1);
         }
-        let cfg = ExecCfg::with_alloc(fp.alloc_every);
+        age_process(seed, fp.age);
+        let cfg = ExecCfg::with_seams(fp.alloc_every, fp.bb_gap, derive(fp.run_seed, 6));
         sched::TRACE_ON.store(true, Ordering::Relaxed);
+        if std::env::var_os("SIM_TRACE_ALL").is_some() {
+            sched::BB_LOG_ALL.store(true, Ordering::Relaxed);
+        }
         let r = ExecResult::from(&execute(&w, Source::Policy { kind: policy, seed: sched_seed }, &cfg));
+        {
+            sched::BB_LOG_ALL.store(false, Ordering::Relaxed);
+            if let Ok(p) = std::env::var("SIM_TRACE_ALL") {
+                for (tid, l) in sched::CB_LOGS.lock().unwrap().iter() {
+                    let mut s = String::new();
+                    for a in l {
+                        s.push_str(&format!("{a:x}\n"));
+                    }
+                    std::fs::write(format!("{p}.{tid}"), s).unwrap();
+                }
+            }
+        }
         sched::TRACE_ON.store(false, Ordering::Relaxed);
         if let Ok(p) = std::env::var("SIM_TRACE") {
             let t = sched::TRACE.lock().unwrap();
@@ -1004,6 +1137,9 @@ pub fn cmd_fu_one(args: &[String]) -> i32 {
         (r, r2)
     }).unwrap();
     let (r, r2) = h.join().unwrap();
+    for v in &r.violations {
+        println!("VIOL {v:?}");
+    }
     println!("violations={} steps={} digest={:016x} | second run in same process (strict): violations={} diverged={} steps={}",
         r.violations.len(), r.report.steps, r.report.trace_digest, r2.violations.len(), r2.report.diverged, r2.report.steps);
     0
